@@ -39,8 +39,18 @@ def canon(x):
     return repr(x)
 
 
+def _is_exc(x):
+    """an observation that RAISED on this side ({"exc": class name}). When the same observation raises on BOTH sides the
+    objects are observationally equal there (neither answers); the exception class may depend on which check trips first
+    (e.g. slicing a minus-strand feature of a protein view: AttributeError on the original, ValueError on its copy).
+    Raises-vs-returns is still a difference."""
+    return isinstance(x, dict) and set(x) == {"exc"}
+
+
 def diff(a, b, tol=1e-9, path=""):
     """first difference between two canonical structures -> (path, a, b) or None"""
+    if _is_exc(a) and _is_exc(b):
+        return None
     if isinstance(a, float) or isinstance(b, float):
         if isinstance(a, (int, float)) and isinstance(b, (int, float)) and not isinstance(a, bool) and not isinstance(b, bool):
             if math.isnan(a) and math.isnan(b):
@@ -73,6 +83,8 @@ def diff_all(a, b, tol=1e-9, path="", out=None, cap=60):
     """every leaf difference between two canonical structures -> [(path, a, b), ...] (bounded)"""
     out = [] if out is None else out
     if len(out) >= cap:
+        return out
+    if _is_exc(a) and _is_exc(b):
         return out
     if isinstance(a, dict) and isinstance(b, dict):
         if sorted(a) != sorted(b):
